@@ -24,8 +24,22 @@ Characters the statement is silent about (other CTLs, non-token names that a cli
 back as the intended name) are labelled, not failed.  The strict reader ``httpref.parse_responses`` is
 run on every response; a disagreement with the lenient reader must be explained by such a character.
 
+Open findings on the current tree (known_findings.d/C07.json, findings_inbox/C07-*.md):
+  * C07.no_response.cookie_line_unencodable (F7): cookie APIs accept text that cannot be sent; hang.
+  * C07.set_header_name_not_token: set_header does not validate names (NUL / ':' on the wire, late failure).
+  * C07.nul_on_wire.lowlevel: write_headers' last-line guard lets NUL through.
+With the three proposed patches applied to a scratch copy the check is quiet without any exclusion.
+
 Sensitivity (scratch copies, quick tier, seed 1):
-  see the list at the end of this docstring (filled in after mutant testing).
+  * web.py _VALID_HEADER_CHARS admitting \x0a                         -> caught (dropped_no_response / hang)
+  * http1connection.py CR_OR_LF_RE guard disabled                      -> caught (cr_lf_nul_in_header_block via low_value)
+  * web.py set_status reason-phrase check removed                      -> caught (cr_lf_nul_in_header_block: NUL in status line)
+  * web.py cookie attribute regexp without \x3b                        -> caught (set_cookie_attribute: Domain=;abc)
+  * web.py _convert_header_value returns bytes values unvalidated      -> caught (dropped / NUL on wire)
+  * web.py legacy "[\x00-\x20] in cookie value" check removed          -> NOT flagged, correctly: http.cookies
+    octal-quotes those characters, the response is exact (equivalent mutant w.r.t. this property)
+Not implemented from DESIGN: `expires` as an injection position (the documented types float/tuple/datetime
+carry no text); header values as int/datetime (no payload can be carried).
 """
 import html
 import warnings
@@ -38,7 +52,7 @@ from tornado import httputil
 from vlib import webutil_c2 as wu
 
 PROPERTY = "C07"
-READY = False
+READY = True
 RULE = (
     "Hypothesis: (api path of 27, response shape of 3, str/bytes, payload = benign + <=3 chars of a "
     "control/separator/non-ASCII alphabet + injected-line tail | free text over that alphabet); plus an "
